@@ -1,5 +1,7 @@
 SPECIFICATION Spec
 CONSTANT ND = 3
+CONSTANT FireOuts = {"ok", "err", "berr"}
+CONSTANT RaiseKinds = {"err", "berr", "cancelled"}
 CONSTANT NG = 2
 CONSTANT MaxLevel = 30
 CONSTRAINT Bound
